@@ -63,15 +63,26 @@ def cls : Outcome α → String
   | .panic _ => "p"
 
 /-- five reader kinds per `k` on the Go side; the model knows a source only through `ReadAt`, so
-its verdict is the same for all of them -/
-def five (s : String) : String := s ++ s ++ s ++ s ++ s
+its verdict is the same for all of them, except that the section reader (third) answers accesses
+at or beyond its declared length itself -/
+def five (s t : String) : String := s ++ s ++ t ++ s ++ s
+
+/-- `io.NewSectionReader(base, 0, len).ReadAt`: EOF at or beyond the declared length without
+touching the base; a read crossing the declared length is clamped and ends in EOF at best -/
+def sectReader (base : ReaderAt) (len : Nat) : ReaderAt := fun off n =>
+  if off ≥ len then .eof
+  else if off + n > len then (match base off (len - off) with | .ok _ => .eof | e => e)
+  else base off n
 
 @[noinline] def runRead (mode : String) (hdr : Bytes) (len : Nat) (ks : List Nat) : String :=
   "".intercalate (ks.map fun k =>
-    if mode == "trunc" then five (cls (readR Gen.headerMaxTables (virtReader (hdr.take k) (min k len))))
+    if mode == "trunc" then
+      let ra := virtReader (hdr.take k) (min k len)
+      five (cls (readR Gen.headerMaxTables ra)) (cls (readR Gen.headerMaxTables (sectReader ra len)))
     else
       let v := virtReader hdr len
-      five (cls (readR Gen.headerMaxTables (fun off n => if off + n > k then .fault else v off n))))
+      let ra : ReaderAt := fun off n => if off + n > k then .fault else v off n
+      five (cls (readR Gen.headerMaxTables ra)) (cls (readR Gen.headerMaxTables (sectReader ra len))))
 
 /-- expected verdicts of the property for a file cut at `k`: every `k` below the end of the last
 table must be rejected (`E`) by the seekable reader, by the two streams ending with EOF at `k`,
